@@ -112,6 +112,8 @@ def gen_plan(prop, seed, tier):
                 n = _pick_n(rng, fam, tier)
             if fam == "closed_newton_cotes":
                 n = max(n, 2)
+            if fam == "chebyshev":
+                n = min(n, 22)     # float Bernstein inversion: beyond 22 nodes the rule's own rounding approaches the 1e-11 bound
             op = {"op": rng.choice(["rule", "rule", "rule", "weights", "nodes"]), "fam": fam, "n": n, "th": th,
                   "order": rng.choice(["nw", "wn"])}
             if rng.random() < fault_rate:
